@@ -34,6 +34,7 @@ type HarnessSpec struct {
 }
 
 type PropSpec struct {
+	Race        bool // native replays run under the race detector, one process per replay
 	ID          string
 	Harnesses   []HarnessSpec
 	Assumptions []string
@@ -98,7 +99,25 @@ type nativeResult struct {
 
 // nativeReplay runs the replay files of one package natively (real build of
 // /repo + overlay harness) and returns the status per file.
+var replayRace bool
+
 func nativeReplay(pkgDir string, files []string) (map[string]nativeResult, string, error) {
+	if replayRace && len(files) > 1 {
+		// the race detector reports per process: one replay per process
+		all := map[string]nativeResult{}
+		outs := ""
+		for _, f := range files {
+			r, out, err := nativeReplay(pkgDir, []string{f})
+			if err != nil {
+				return all, out, err
+			}
+			outs += out
+			for k, v := range r {
+				all[k] = v
+			}
+		}
+		return all, outs, nil
+	}
 	res := map[string]nativeResult{}
 	if len(files) == 0 {
 		return res, "", nil
@@ -129,7 +148,11 @@ func nativeReplay(pkgDir string, files []string) (map[string]nativeResult, strin
 	listPath := filepath.Join(tmp, "files.txt")
 	os.WriteFile(listPath, []byte(strings.Join(files, ",")), 0o644)
 	pkgPath := ruxPath + pkgDirs[pkgDir]
-	cmd := exec.Command("go", "test", "-vet=off", "-count=1", "-run", "^TestVerifReplay$", "-v", "-overlay", ovPath, pkgPath)
+	args := []string{"test", "-vet=off", "-count=1", "-run", "^TestVerifReplay$", "-v", "-overlay", ovPath}
+	if replayRace {
+		args = append(args, "-race")
+	}
+	cmd := exec.Command("go", append(args, pkgPath)...)
 	cmd.Dir = repoDir
 	cmd.Env = append(os.Environ(), "GOFLAGS=-mod=mod", "GOPROXY=off", "GOSUMDB=off", "GOTOOLCHAIN=local",
 		"VERIF_REPLAY="+strings.Join(files, ","), "GOCACHE="+goCache())
@@ -142,6 +165,15 @@ func nativeReplay(pkgDir string, files []string) (map[string]nativeResult, strin
 			var nr nativeResult
 			if json.Unmarshal([]byte(strings.TrimPrefix(line, "VERIF-REPLAY-JSON ")), &nr) == nil {
 				res[nr.File] = nr
+			}
+		}
+	}
+	if replayRace && strings.Contains(string(out), "WARNING: DATA RACE") {
+		for k, v := range res {
+			if v.Status != "REPRODUCED" {
+				v.Status = "REPRODUCED"
+				v.Failures = append(v.Failures, "race detector: WARNING: DATA RACE")
+				res[k] = v
 			}
 		}
 	}
@@ -215,6 +247,7 @@ func cmdCheck(args []string) int {
 		return 2
 	}
 	seed := seedFromEnv()
+	replayRace = spec.Race
 	t0 := time.Now()
 	w, err := loadWorld()
 	if err != nil {
@@ -425,7 +458,10 @@ func cmdCheck(args []string) int {
 			if err == nil {
 				defer sol.Close()
 				for pkg, files := range wByPkg {
+					saved := replayRace
+					replayRace = false // validation compares assertion outcomes; no race detector needed
 					nres, out, err := nativeReplay(pkg, files)
+					replayRace = saved
 					if err != nil {
 						fmt.Fprintln(os.Stderr, "validation: native run failed:", err)
 						if os.Getenv("RUXSYM_VERBOSE") != "" {
